@@ -652,18 +652,39 @@ func (d *ColumnDetector) createColumnsFromGaps(fragments []text.TextFragment, ga
 func (d *ColumnDetector) validateColumns(columns []Column) []Column {
 	var valid []Column
 
+	// Content of a column that is too narrow is not dropped: it joins the
+	// column before it (or the next valid one when there is none before)
+	var pending []text.TextFragment
+
 	for _, col := range columns {
 		// Skip empty columns
 		if len(col.Fragments) == 0 {
 			continue
 		}
 
-		// Skip columns that are too narrow
+		// Columns that are too narrow are merged into a neighbour
 		if col.BBox.Width < d.config.MinColumnWidth {
+			if len(valid) > 0 {
+				last := &valid[len(valid)-1]
+				last.Fragments = append(last.Fragments, col.Fragments...)
+				last.BBox = fragmentsBBox(last.Fragments)
+			} else {
+				pending = append(pending, col.Fragments...)
+			}
 			continue
 		}
 
+		if len(pending) > 0 {
+			col.Fragments = append(pending, col.Fragments...)
+			col.BBox = fragmentsBBox(col.Fragments)
+			pending = nil
+		}
 		valid = append(valid, col)
+	}
+
+	if len(pending) > 0 {
+		// Only narrow columns: keep their content as one column
+		valid = append(valid, Column{BBox: fragmentsBBox(pending), Fragments: pending})
 	}
 
 	// Re-index columns
